@@ -179,7 +179,7 @@ def v_rules(schema: Schema, rep: Report):
                 want = {"&nbsp;": " ", "&apos;": "'", "&quot;": '"'}
                 missing = {k: v for k, v in want.items() if got.get(k) != v}
                 wrong = {k: v for k, v in got.items() if k in ("&amp;", "&lt;", "&gt;")}
-                rep.check("V-R6", "String.convert[str]:entity-table", not missing and not wrong, f"entities {sorted(missing)} are not decoded to their characters (table: {got})" if (missing or wrong) else "", tloc(p, h.fn))
+                rep.check("V-R6", "String.convert[str]:entity-table", not missing and not wrong, (f"entities {sorted(missing)} are not decoded to their characters (table: {got})" if missing else f"the table lists {sorted(wrong)}, which saxutils.unescape decodes by itself (&amp; last): listed in the table they are decoded in the first pass as well, so the text &amp;lt; becomes < instead of &lt; (double decoding)") if (missing or wrong) else "", tloc(p, h.fn))
             elif d.startswith("html"):
                 rep.check("V-R6", "String.convert[str]:entity-table", True, "html.unescape", tloc(p, h.fn))
             else:
